@@ -453,6 +453,9 @@ Proof.
     rewrite (exec_ops_app fl4 _ st1 st2 X14). exact Hex3.
 Qed.
 
+Lemma lift_shift_any_3 m (o : shop) sz csz dst cnt : shop3 o -> lift_shift_any m o sz csz dst cnt = lift_shift m o sz csz dst cnt.
+Proof. intros [->|[->| ->]]; reflexivity. Qed.
+
 (* shl / shr / sar r/m, imm8 | cl *)
 Theorem shift_sim m addr len (o : shop) sz dst cnt :
   shop3 o -> width_ok sz -> opnd_ok m sz dst -> isreg dst = true \/ is_mem dst = true -> opnd_ok m 8 cnt -> is_mem cnt = false ->
@@ -467,7 +470,7 @@ Proof.
     as (ops & st' & Hl & Md & Hrun & Hemb & Hwf).
   exists (one_block addr ops). split.
   - unfold mirror_instr. assert (Rc: regimm cnt = true) by (destruct cnt; try discriminate; reflexivity). rewrite Md, Rc.
-    destruct Hk as [Hk|Hk]; rewrite Hk; [|rewrite orb_true_r]; cbn [orb andb]; rewrite Hl; reflexivity.
+    destruct Hk as [Hk|Hk]; rewrite Hk; [|rewrite orb_true_r]; cbn [orb andb]; rewrite (lift_shift_any_3 _ _ _ _ _ _ H3), Hl; reflexivity.
   - exists st'. auto.
 Qed.
 
@@ -486,6 +489,6 @@ Proof.
   destruct (shift_gen m addr (addr + len) o sz sz dst (OImm 1) s st a 1 s2 Hw He H3 Hwd Hwd (or_intror eq_refl) Hod Hk Hoc eq_refl Hnw Hra eq_refl Hs')
     as (ops & st' & Hl & Md & Hrun & Hemb & Hwf).
   exists (one_block addr ops). split.
-  - unfold mirror_instr. rewrite Md. destruct Hk as [Hk|Hk]; rewrite Hk; [|rewrite orb_true_r]; cbn [orb andb]; rewrite Hl; reflexivity.
+  - unfold mirror_instr. rewrite Md. destruct Hk as [Hk|Hk]; rewrite Hk; [|rewrite orb_true_r]; cbn [orb andb]; rewrite (lift_shift_any_3 _ _ _ _ _ _ H3), Hl; reflexivity.
   - exists st'. auto.
 Qed.
